@@ -402,6 +402,9 @@ var liar = &core.Check{Name: "c07/liar", Quick: 15000, Thorough: 1500000, Hang: 
 		r = &ref.RawBoc{Magic: magic, SizeByte: size, OffBytes: byte(c.OneOf("off25", 1, 2, 4, 8)),
 			Cells: wideVals[c.Choose("cells25", len(wideVals))], Roots: wideVals[c.Choose("roots25", len(wideVals))], RootList: []uint64{0},
 			CellList: []ref.RawCell{{D1: 0, D2: 2, Data: []byte{0xaa}}}, HasCRC: magic[1] == 0xc3}
+		if magic[0] != 0xb5 && c.Bool("nolist25") {
+			r.RootList = nil // the legacy containers have no root list
+		}
 		if c.Bool("smallcells25") {
 			r.Cells = uint64(1 + c.Intn("ncells25", 3))
 		}
@@ -514,7 +517,7 @@ func smallSeeds() [][]byte {
 	out = append(out,
 		ref.SerializeBOC([]*ref.RCell{root}, ref.BocVariant{}),
 		ref.SerializeBOC([]*ref.RCell{root}, ref.BocVariant{Index: true, CRC: true, CacheBits: true}),
-		ref.SerializeBOC([]*ref.RCell{root, leaf}, ref.BocVariant{Magic: 2}),
+		ref.SerializeBOC([]*ref.RCell{root}, ref.BocVariant{Magic: 2}),
 		ref.SerializeBOC([]*ref.RCell{mp}, ref.BocVariant{}),
 		ref.SerializeBOC([]*ref.RCell{ref.NewRCell(nil, false, lib)}, ref.BocVariant{Magic: 1, WithHashes: true}),
 	)
